@@ -14,11 +14,15 @@ of the live list at the moment the loop arrives there, one wait per slot, in ord
 listed before the call and after it ⇒ `begin()` completed).  The theorems of C01–C03 hold for this
 caller program too (same statements).
 
-A finite `join_timeout` (`Cfg.joinTimeout`: timed joins in the replace thread and in `__exit__`; the worker's `end()` after
-the post of its wid is then a step of its own, pc `.ending`) is part of the model too: every theorem here holds for these
-configurations (same statements) — EXCEPT `exit_joins_all`, which is false then and carries the hypothesis
-`cfg.joinTimeout = false` (see `C02.exit_returns_with_running_worker`, `C02.imap_maximal_all_exited`).
-`lifecycle_counts`: begin / end at most once, exactly once after the exit; `ending_only_joinTimeout`.
+`end()` (the `finally:` of `BaseFunctorWorker.run`) is a step of its own in EVERY configuration and on every way out of the
+worker's loop (stop order taken, wid posted, quota of a plain pool used up, `begin()` / the functor raised): pc `.ending`,
+between the operation that ended the loop and the exit; a join on the worker blocks meanwhile (`join_timeout=None`).
+A finite `join_timeout` (`Cfg.joinTimeout`: timed joins in the replace thread and in `__exit__`) is part of the model too:
+every theorem here holds for these configurations (same statements) — EXCEPT `exit_joins_all`, which is false then and
+carries the hypothesis `cfg.joinTimeout = false` (see `C02.exit_returns_with_running_worker`, `C02.imap_maximal_all_exited`).
+`lifecycle_counts`: begin / end at most once, exactly once after the exit; `ending_without_timeout` (the former
+`ending_only_joinTimeout` — "a worker is at `.ending` only with a join timeout" — is false now and has been replaced by this
+witness).
 -/
 namespace WindVerif.C04
 open WindVerif.Pool
@@ -101,19 +105,21 @@ theorem lifecycle_counts (cfg : Cfg) (s : St) (h : Reach cfg s) (w : Worker) (hw
     (w.pc = .ending → w.log.count .begin = 1 ∧ w.log.count .end_ = 0) := by
   first | exact WindVerif.Pool.lifecycle_counts .. | (apply WindVerif.Pool.lifecycle_counts <;> assumption)
 
-/-- a worker is between the post of its wid and its `end()` only in a pool with a finite join timeout (without one the
-model — and every trace — is the old one) -/
-theorem ending_only_joinTimeout (cfg : Cfg) (s : St) (h : Reach cfg s) (w : Worker) (hw : w ∈ s.workers)
-    (hpc : w.pc = .ending) : cfg.joinTimeout = true := by
-  first | exact WindVerif.Pool.ending_only_joinTimeout .. | (apply WindVerif.Pool.ending_only_joinTimeout <;> assumption)
+/-- `end()` is a step of its own without a join timeout too (REPLACES `ending_only_joinTimeout`, which claimed the contrary
+and is false in the model with the unconditional `.ending`): a plain pool with one worker and no call — the worker takes the
+stop order of `__exit__` and stands at `.ending` (`begin` logged, `end_` not yet) while `__exit__`'s join blocks -/
+theorem ending_without_timeout :
+    ∃ cfg sched s, cfg.joinTimeout = false ∧ run (init cfg) sched = some s ∧ s.cpc = .exitJoin 0 ∧ step s .c = none ∧
+      ∃ w ∈ s.workers, w.pc = .ending ∧ w.log = [.begin] := by
+  first | exact WindVerif.Pool.ending_without_timeout .. | (apply WindVerif.Pool.ending_without_timeout <;> assumption)
 
-/-- non-vacuity of `ending_only_joinTimeout` / the `.ending` clause of `lifecycle_counts`: such a state is reachable -/
+/-- non-vacuity of the `.ending` clause of `lifecycle_counts`: such a state is reachable -/
 example : (run (init jtCfg) jtSched).map (fun s => s.workers.map (fun w => (w.wid, w.pc))) =
     some [(0, .ending), (1, .bfClear)] := by decide
 
 /-- non-vacuity: a worker whose functor raises at its first chunk still logs begin · item · end -/
 example : ((run (init ⟨1, none, none, false, none, false, [⟨1, true⟩], [], [(0, 0)], false, false⟩)
-    [.c, .w 0, .w 0, .c, .c, .c, .c, .f, .w 0]).map (fun s => s.workers.map (·.log))) =
+    [.c, .w 0, .w 0, .c, .c, .c, .c, .f, .w 0, .w 0]).map (fun s => s.workers.map (·.log))) =
     some [[.begin, .item 0, .end_]] := by decide
 
 /-- a factory pool with 2 workers, quota 1, one unordered call of 2 chunks, `until_all_ready()` in the middle of the call -/
@@ -128,25 +134,25 @@ def midSched : List Tid :=
 /-- non-vacuity of `ready_mid_after_begin`: the consumer is at the wait for worker 0, the occupant of slot 0 -/
 example : (run (init midCfg) midSched).map (fun s => (s.cpc, s.procs)) = some (.midReady 0 0, [0, 1]) := by decide
 
-/-- … worker 0 retires (quota 1) and the replace thread SWAPS it for its successor 2 while the consumer is inside the
+/-- … worker 0 retires (quota 1: posts its wid, runs `end()`) and the replace thread SWAPS it for its successor 2 while the consumer is inside the
 mid-call wait: the consumer still waits for the worker it fetched (0), not for the new occupant of the slot -/
-example : (run (init midCfg) (midSched ++ [.w 0, .r, .r])).map (fun s => (s.cpc, s.procs)) =
+example : (run (init midCfg) (midSched ++ [.w 0, .w 0, .r, .r])).map (fun s => (s.cpc, s.procs)) =
     some (.midReady 0 0, [2, 1]) := by decide
 
 /-- … that wait returns (the hypotheses of the theorem: a reachable state at `midReady 0 0`, a later one elsewhere) -/
-example : (run (init midCfg) midSched).bind (fun s => (run s [.w 0, .r, .r, .c]).map (fun s' => (s.cpc, s'.cpc, s'.procs))) =
+example : (run (init midCfg) midSched).bind (fun s => (run s [.w 0, .w 0, .r, .r, .c]).map (fun s' => (s.cpc, s'.cpc, s'.procs))) =
     some (.midReady 0 0, .midReady 1 1, [2, 1]) := by decide
 
 /-- … the hypotheses of `ready_mid_listed`: slot 0 just fetched in `s₀`; later the consumer is outside `until_all_ready()`,
 worker 1 was listed in `s₀` and still is -/
-example : (run (init midCfg) midSched).bind (fun s => (run s [.w 0, .r, .r, .c, .c]).map
+example : (run (init midCfg) midSched).bind (fun s => (run s [.w 0, .w 0, .r, .r, .c, .c]).map
     (fun s' => (s.cpc, s.procs[0]?, s.procs, s'.cpc, s'.procs))) =
     some (.midReady 0 0, some 0, [0, 1], .rdSending, [2, 1]) := by decide
 
 /-- … and after the wait for worker 1 `until_all_ready()` has returned: workers 0 and 1 — the ones waited for — have
 completed `begin()`; the successor 2, listed in slot 0 after that slot's occupant had been fetched, has not even been
 started: the theorem cannot promise more than it does -/
-example : (run (init midCfg) (midSched ++ [.w 0, .r, .r, .c, .c])).map
+example : (run (init midCfg) (midSched ++ [.w 0, .w 0, .r, .r, .c, .c])).map
     (fun s => (s.cpc, s.procs, s.workers.map (fun w => (w.wid, w.bf, w.pc)))) =
     some (.rdSending, [2, 1], [(0, true, .exited), (1, true, .get), (2, false, .notStarted)]) := by decide
 
